@@ -186,26 +186,26 @@ def run(ctx):
                 probs.append(f"l_ref = {law.l_ref!r} but l(t0, q0) = {l0!r}")
             try:
                 E = law.E_pot(t0, q)
-                if abs(E) > 1e-12:
+                if not (abs(E) <= 1e-12):
                     probs.append(f"E_pot = {E!r}")
                 if hasattr(law, "la_c") and not c["law"] == "Maxwell":
                     f = law.la_c(t0, q, u)
-                    if abs(f) > 1e-10:
+                    if not (abs(f) <= 1e-10):
                         probs.append(f"force la_c = {f!r}")
                 if hasattr(law, "h") and callable(getattr(law, "h")):
                     h = np.asarray(law.h(t0, q, u))
-                    if np.max(np.abs(h)) > 1e-10:
+                    if not (np.max(np.abs(h)) <= 1e-10):
                         probs.append(f"generalized force h = {h.tolist()}")
                 if hasattr(law, "c") and callable(getattr(law, "c")):
                     res = law.c(t0, q, u, np.zeros(1))
-                    if abs(np.asarray(res).ravel()[0]) > 1e-10:
+                    if not (abs(np.asarray(res).ravel()[0]) <= 1e-10):
                         probs.append(f"compliance residual at zero force = {res!r}")
                 if c["law"] == "Maxwell":
                     f = law.force(t0, q, u)
-                    if abs(f) > 1e-10:
+                    if not (abs(f) <= 1e-10):
                         probs.append(f"force = {f!r}")
                 Es = system.E_pot(t0, system.q0)
-                if abs(Es) > 1e-12:
+                if not (abs(Es) <= 1e-12):
                     probs.append(f"system.E_pot = {Es!r}")
             except Exception as ex:
                 probs.append(f"evaluation raised {type(ex).__name__}: {ex}")
